@@ -8,6 +8,7 @@ import CG.Spec
 import CG.Props.C06
 import CG.Proofs.Unroll
 import CG.Proofs.UnrollSeqSem
+import CG.Proofs.UnrollSeqDictMain
 namespace CG.C09
 
 /-- the circuits the statement ranges over: lint-clean and blackbox-free -/
@@ -282,5 +283,67 @@ example : (Tx.unroll tog 2 [("nx", "s")] "cg_unroll" id).toOption.map (fun r => 
 example : Good tog ∧ Pairing tog [("nx", "s")] := by
   refine ⟨⟨Limit.lintClean_of_checks tog ⟨by decide, by decide, by decide⟩ (by decide) (by decide) (by decide), rfl⟩,
     ⟨by decide, by decide, by decide, by decide, by decide⟩⟩
+
+/-! ### sequential_unroll with a per-flop initial-value dict -/
+
+/-- a per-flop initial-value dict as `sequential_unroll(initial_values={inst: "0"/"1", …})` takes it: keys are distinct
+    instance names of the circuit, values are constants -/
+structure InitDict (c : Circuit) (d : List (Name × String)) : Prop where
+  keys : ∀ kv ∈ d, ∃ u ∈ c.bbs, u.1 = kv.1
+  keysNodup : (d.map (·.1)).Nodup
+  vals : ∀ kv ∈ d, kv.2 = "0" ∨ kv.2 = "1"
+
+/-- **C09 (sequential_unroll with a per-flop initial-value dict, soundness).** as `sequential_unroll_sem`, with the flops
+    listed in the dict starting at their given values and the others free -/
+theorem sequential_unroll_dict_sem (c : Circuit) (bb : BBox) (n : Nat) (dPort qPort : Name) (ignore : List Name) (afo : Bool)
+    (initDict : List (Name × String)) (ru : Bool) (pfx : String) (ord : Ord) (hord : OrdOK ord)
+    (hc : SeqGood c bb dPort qPort) (hig : dPort ∉ ignore ∧ qPort ∉ ignore)
+    (hclash : ∀ u ∈ c.bbs, ∀ g ∈ bb.ins ++ bb.outs, g ∉ ignore → c.has (u.1 ++ "_" ++ g) = false)
+    (hd : InitDict c initDict)
+    (uc : Circuit) (ioMap : List (Name × List Name))
+    (h : Tx.sequentialUnroll c n dPort qPort ignore afo none initDict ru pfx ord = .ok (uc, ioMap))
+    (v : Val) (hv : Consistent uc v) :
+    ∃ w, SeqRun c dPort qPort n w ∧
+      (∀ o ∈ c.outputs, ∀ t, t < n → v (Tx.ioName ioMap o t) = w t o) ∧
+      (∀ u ∈ c.bbs, ∀ t, t < n → v (Tx.ioName ioMap (u.1 ++ "_" ++ dPort) t) = w t (u.1 ++ "." ++ dPort)) ∧
+      (∀ kv ∈ initDict, w 0 (kv.1 ++ "." ++ qPort) = (kv.2 == "1")) := by
+  exact USD.dict_sound c bb n dPort qPort ignore afo initDict ru pfx ord hord hc.toHelper hclash hig hd.keys hd.keysNodup hd.vals
+    uc ioMap h v hv
+
+/-- **C09 (sequential_unroll with a per-flop initial-value dict, completeness).** every run that starts the listed flops at
+    their given values is realised -/
+theorem sequential_unroll_dict_complete (c : Circuit) (bb : BBox) (n : Nat) (dPort qPort : Name) (ignore : List Name) (afo : Bool)
+    (initDict : List (Name × String)) (ru : Bool) (pfx : String) (ord : Ord) (hord : OrdOK ord)
+    (hc : SeqGood c bb dPort qPort) (hig : dPort ∉ ignore ∧ qPort ∉ ignore)
+    (hclash : ∀ u ∈ c.bbs, ∀ g ∈ bb.ins ++ bb.outs, g ∉ ignore → c.has (u.1 ++ "_" ++ g) = false)
+    (hd : InitDict c initDict)
+    (uc : Circuit) (ioMap : List (Name × List Name))
+    (h : Tx.sequentialUnroll c n dPort qPort ignore afo none initDict ru pfx ord = .ok (uc, ioMap))
+    (w : Nat → Val) (hw : SeqRun c dPort qPort n w)
+    (hw0 : ∀ kv ∈ initDict, w 0 (kv.1 ++ "." ++ qPort) = (kv.2 == "1")) :
+    ∃ v, Consistent uc v ∧
+      (∀ o ∈ c.outputs, ∀ t, t < n → v (Tx.ioName ioMap o t) = w t o) ∧
+      (∀ u ∈ c.bbs, ∀ t, t < n → v (Tx.ioName ioMap (u.1 ++ "_" ++ dPort) t) = w t (u.1 ++ "." ++ dPort)) := by
+  exact USD.dict_complete c bb n dPort qPort ignore afo initDict ru pfx ord hord hc.toHelper hclash hig hd.keys hd.vals
+    uc ioMap h w hw hw0
+
+/-- the call succeeds for such a dict whenever it succeeds without initial values (the dict only retypes step-0 state inputs) -/
+theorem sequential_unroll_dict_ok (c : Circuit) (bb : BBox) (n : Nat) (dPort qPort : Name) (ignore : List Name) (afo : Bool)
+    (initDict : List (Name × String)) (ru : Bool) (pfx : String) (ord : Ord) (hord : OrdOK ord)
+    (hc : SeqGood c bb dPort qPort) (hig : dPort ∉ ignore ∧ qPort ∉ ignore)
+    (hclash : ∀ u ∈ c.bbs, ∀ g ∈ bb.ins ++ bb.outs, g ∉ ignore → c.has (u.1 ++ "_" ++ g) = false)
+    (hd : InitDict c initDict) (hn : 1 ≤ n)
+    (r0 : Circuit × List (Name × List Name))
+    (h0 : Tx.sequentialUnroll c n dPort qPort ignore afo none [] ru pfx ord = .ok r0) :
+    ∃ uc, Tx.sequentialUnroll c n dPort qPort ignore afo none initDict ru pfx ord = .ok (uc, r0.2) := by
+  have _ := hn  -- (`n ≥ 1` already follows from `h0`; kept in the statement)
+  exact USD.dict_succeeds c bb n dPort qPort ignore afo initDict ru pfx ord hord hc.toHelper hclash hig hd.keys hd.vals r0 h0
+
+
+/-- non-vacuity: the toggle flop of `togSeq` with the dict `{f: "1"}` -/
+example : InitDict togSeq [("f", "1")] := ⟨by decide, by decide, by decide⟩
+example : (Tx.sequentialUnroll togSeq 2 "d" "q" ["clk"] false none [("f", "1")] true "cg_unroll" id).toOption.map
+    (fun r => (r.1.nodes.length, r.1.inputs, r.1.ty? (Tx.ioName r.2 "f_q" 0))) =
+    some (18, ["en_cg_unroll_0", "en_cg_unroll_1"], some "1") := by decide +kernel
 
 end CG.C09
